@@ -634,6 +634,8 @@ package twig
 // a quotient or product that is zero is the integer 0, never the float -0 (0 is added); so is the negation of zero
 //@   ensures[C08] err == nil && operator == "/" && bothNum() ==> typeIs(ret0, "float64") && unboxAs(ret0, "float64") == f_add(f_div(lnum(), rnum()), 0.0)
 //@   ensures[C08] err == nil && operator == "*" && bothNum() ==> typeIs(ret0, "float64") && unboxAs(ret0, "float64") == f_add(f_mul(lnum(), rnum()), 0.0)
+// ... and a remainder that is zero (-4 % 2): the sign of math.Mod's result follows the dividend
+//@   ensures[C08] err == nil && operator == "%" && bothNum() ==> typeIs(ret0, "float64") && unboxAs(ret0, "float64") == f_add(fn_Mod_0(lnum(), rnum()), 0.0)
 
 // ---------------------------------------------------------------- escape (C07)
 // ghost content of strings.Builder values
